@@ -108,6 +108,7 @@ type run struct {
 	failedClaimDeleted map[string][]*blk // record key -> blocks in which a failed claim tx deleted it (listed C12 finding)
 
 	accumSeen   int  // rewards accumulated into contract-held records
+	multiAccum  map[common.Hash]bool // blocks that accumulated twice or more into one record that existed before
 	creditsSeen int  // blocks x accounts with a non-zero, exactly matching credit
 	linear      bool // no fork was built on this net so far (database scans describe the only chain)
 	dead        bool
@@ -844,6 +845,7 @@ func (x *run) checkLockups(b, parent *blk, pst *state.StateDB, receipts types.Re
 	}
 	outboundClaims := map[common.Hash][]*types.Transaction{} // originating tx -> claim ETXs emitted by this block
 	claimedHere := map[string]bool{}                         // records paid out by an earlier transaction of this block
+	accumHere := map[string]int{}                            // rewards accumulated by this block into a record that existed before it
 	for _, e := range b.wo.OutboundEtxs() {
 		if e.EtxType() == types.CoinbaseLockupType {
 			outboundClaims[e.OriginatingTxHash()] = append(outboundClaims[e.OriginatingTxHash()], e)
@@ -911,6 +913,16 @@ func (x *run) checkLockups(b, parent *blk, pst *state.StateDB, receipts types.Re
 				x.m.Eval(fmt.Sprintf("lockup-record-created:%s:%s:byte%d", led, lay, d[0]), k)
 			} else {
 				x.m.Eval(fmt.Sprintf("lockup-record-accumulated:%s:%s:byte%d", led, lay, d[0]), k+tx.Hash().Hex())
+				if _, createdHere := accumHere[k]; createdHere || rec.Elements > 0 {
+					if accumHere[k]++; accumHere[k] == 2 {
+						// the block's undo list holds two entries for one record that existed before the block
+						if x.multiAccum == nil {
+							x.multiAccum = map[common.Hash]bool{}
+						}
+						x.multiAccum[b.hash] = true
+						x.m.Eval("block-with-several-accumulations-into-one-existing-record", b.hash.Hex())
+					}
+				}
 			}
 			rec.Balance.Add(rec.Balance, amt)
 			rec.Elements++
